@@ -640,6 +640,19 @@ def shard(ctx) -> None:
     groups: dict = {}
     for k in ok_envs:
         groups.setdefault(envs[k]["hashseed"], []).append(k)
+    # one more interpreter with the base environment: warm-up program first, then the list in reverse order
+    rev = None
+    try:
+        warm_jobs = [{"src": corpus.WARMUP, "mode": m} for m in sorted({p.mode for p in progs})]
+        rs = run_child(base_env(), warm_jobs + jobs[::-1])
+        rev = [r[0] for r in rs[len(warm_jobs):]][::-1]
+        ctx.count("child_environments")
+        ctx.count("histories", len(progs))
+        for p, r in zip(progs, rev):
+            p.child["rev"] = r
+    except ChildFailed as e:
+        ctx.count("child_failures")
+        ctx.note(f"reversed-order child failed: {e}")
 
     def escalate(p, suf, first_seen):
         got = reproduces_inproc(p.src, p.mode, suf, ESCALATE_REPEATS, rng)
@@ -696,23 +709,41 @@ def shard(ctx) -> None:
                 if not same_wrt(c, p.child[k], again[pi][0]):
                     p.found[suf] = ("layout", c, extra)
 
-    # history attribution (baseline: first run on a fresh Checker)
+    # history attribution. Candidates: (1) this process: first run on a fresh Checker vs the run after a history;
+    # (2) fresh interpreters with the base environment: forward order vs warm-up + reversed order.
+    confirmed_per_suffix: dict = {}
+
+    def history_candidate(p, c, hsrcs, first_seen):
+        suf = suffix_of(c)
+        if suf in p.found:
+            return
+        if escalate(p, suf, first_seen):
+            return
+        if confirmed_per_suffix.get(suf, 0) >= ctx.pick(1, 3):
+            ctx.count("history_candidates_not_confirmed_individually")
+            return
+        c2, hmin, n = history_experiment(p.src, p.mode, hsrcs, suf, minimise=True)
+        ctx.count("child_environments", n)
+        ctx.count("history_confirmation_children", n)
+        if c2 is not None:
+            confirmed_per_suffix[suf] = confirmed_per_suffix.get(suf, 0) + 1
+            p.found[suf] = ("history", c2, {"history": hmin, "first_seen": first_seen})
+        else:
+            p.found[suf] = ("history", c, {"history": hsrcs[-6:], "first_seen": first_seen, "unconfirmed": True,
+                                           "note": "seen in a used process after this history; not reproduced by [P] vs [H, P] in fresh interpreters nor by 30 warm repeats"})
+
     for pi, p in enumerate(progs):
         for desc, H, r in p.hist:
             c = classify(p.rep[0], r)
-            if c is None or suffix_of(c) in p.found:
-                continue
-            suf = suffix_of(c)
-            if escalate(p, suf, "history"):
-                continue
-            hsrcs = [corpus.WARMUP if j == -1 else progs[j].src for j in H]
-            c2, hmin = history_experiment(p.src, p.mode, hsrcs, suf, minimise=True)
-            ctx.count("history_confirmations")
-            if c2 is not None:
-                p.found[suf] = ("history", c2, {"history": hmin})
-            else:
-                p.found[suf] = ("repeat", c, {"attempts": ESCALATE_REPEATS, "first_seen": "history",
-                                              "note": "seen once after a history; the same history did not reproduce it"})
+            if c is not None:
+                history_candidate(p, c, [corpus.WARMUP if j == -1 else progs[j].src for j in H], "history:" + desc.split("-")[0])
+    if rev is not None and BASE_SEED in groups and groups[BASE_SEED][0] == 0:
+        for pi, p in enumerate(progs):
+            c = classify(p.child[0], rev[pi])
+            if c is not None:
+                # history of P in the reversed interpreter: warm-up, then the programs after P in reverse order
+                hs = [corpus.WARMUP] + [progs[j].src for j in range(len(progs) - 1, pi, -1) if progs[j].mode == p.mode]
+                history_candidate(p, c, hs, "history:reversed-interpreter")
 
     # (e) the CLI, sampled
     if ctx.pick(ctx.shard % 4 == 0, True):
@@ -744,7 +775,8 @@ def shard(ctx) -> None:
                     if escalate(p, suf, "file-order"):
                         continue
                     before = [files[x] for x in sorted(files) if x < nm]
-                    c2, hmin = history_experiment(p.src, "default", before, suf, minimise=True)
+                    c2, hmin, n2 = history_experiment(p.src, "default", before, suf, minimise=True)
+                    ctx.count("child_environments", n2)
                     if c2 is not None:
                         p.found[suf] = ("history", c2, {"history": hmin, "mode": "default", "first_seen": "file-order"})
                         continue
@@ -788,32 +820,36 @@ def shard(ctx) -> None:
             ctx.sample({"family": p.family, "source": p.src[:600], "environments": n_env, "distinct_renderings": nd})
 
 
-def history_experiment(src: str, mode: str, hsrcs: list, suffix: str, minimise: bool = False):
-    """fresh Checker -> P  vs  fresh Checker -> H... -> P.  Returns (classification or None, history used)."""
-
-    def once(hs):
-        r0 = check_inproc(src, mode, fresh_kwargs(mode))
-        kw = fresh_kwargs(mode)
-        for h in hs:
-            try:
-                check_inproc(h, mode, kw)
-            except Exception:  # noqa: BLE001
-                pass
-        c = classify(r0, check_inproc(src, mode, kw))
-        return c if c is not None and (suffix is None or suffix_of(c) == suffix) else None
-
-    c = once(hsrcs)
-    if c is None:
-        return None, hsrcs
+def history_experiment(src: str, mode: str, hsrcs: list, suffix, minimise: bool = False, budget: int = 4):
+    """Clean experiment in fresh interpreters (pyanalyze keeps state in shared Value objects that outlive a Checker, so a
+    `fresh Checker` inside a used process is not a clean baseline):  interpreter A checks [P];  interpreter B checks
+    [H..., P] on one Checker.  Returns (classification or None, history used, #interpreters)."""
+    P = {"src": src, "mode": mode}
+    n = 0
+    try:
+        rA = run_child(base_env(), [P])[0][0]
+        n += 1
+    except ChildFailed:
+        return None, hsrcs, n
+    cands: list = []
     if minimise:
-        for h in hsrcs:
-            c1 = once([h])
-            if c1 is not None:
-                return c1, [h]
-        half = hsrcs[: len(hsrcs) // 2]
-        if half and once(half) is not None:
-            return c, half
-    return c, hsrcs
+        if corpus.WARMUP in hsrcs:
+            cands.append([corpus.WARMUP])
+        for h in hsrcs[::-1][:2]:
+            if [h] not in cands:
+                cands.append([h])
+    if list(hsrcs) not in cands:
+        cands = cands[: budget - 1] + [list(hsrcs)]
+    for Hc in cands[:budget]:
+        try:
+            rB = run_child(base_env(), [{"src": h, "mode": mode} for h in Hc] + [P])[-1][0]
+            n += 1
+        except ChildFailed:
+            continue
+        c = classify(rA, rB)
+        if c is not None and (suffix is None or suffix_of(c) == suffix):
+            return c, Hc, n
+    return None, hsrcs, n
 
 
 def report(ctx, axis: str, c, extra: dict, family: str, src: str, mode: str = "tests") -> None:
@@ -875,7 +911,7 @@ def replay(witness):
                 if got is not None:
                     add("repeat", got, {"attempts": ESCALATE_REPEATS})
                     continue
-                c2, hmin = history_experiment(files[nm], "default", [files[x] for x in sorted(files) if x < nm], suffix_of(c))
+                c2, hmin, _n = history_experiment(files[nm], "default", [files[x] for x in sorted(files) if x < nm], suffix_of(c))
                 if c2 is not None:
                     add("history", c2, {"history": hmin})
                     continue
@@ -893,7 +929,7 @@ def replay(witness):
         return result()
     if axis == "history":
         for _ in range(3):
-            c, hmin = history_experiment(src, mode, witness.get("history", []), want)
+            c, hmin, _n = history_experiment(src, mode, witness.get("history", []), want)
             if c is not None:
                 add("history", c, {"history": hmin})
                 break
